@@ -621,6 +621,10 @@ __strfdtdur(
 		}
 	}
 out:
+	if (UNLIKELY(bp > buf + bsz)) {
+		/* a field printer reports the width it wanted, not what fit */
+		bp = buf + bsz;
+	}
 	if (bp < buf + bsz) {
 		*bp = '\0';
 	}
